@@ -293,8 +293,14 @@ def _noise_step(nodes, step, cls):
         a, b, m = step[2], step[3], step[4]
         _add_edge(nodes, a, b, m)
         _warm(nodes, b)
-        del nodes[a][nodes[b].node_name]
-        _warm(nodes, b)
+        _warm(nodes, a)
+        if len(step) > 5 and step[5] == "delall" and len(list(nodes[a].children)) == 1:
+            del nodes[a].children
+        else:
+            del nodes[a][nodes[b].node_name]
+        if not (len(step) > 6 and step[6] == "cold"):
+            _warm(nodes, b)
+            _warm(nodes, a)
 
 
 def build_real(d):
@@ -328,7 +334,7 @@ def add_noise(rng: random.Random, n: int, edges, amount: int = 4):
     final = set(edges)
     out = []
     for _ in range(amount):
-        k = rng.randint(0, len(edges))
+        k = rng.randint(0, len(edges)) if rng.random() < 0.7 else len(edges)   # often the very last thing that happens
         cur = edges[:k]
         kind = rng.choice(["q", "cyc", "hookpre", "hookpost", "hookpost", "tmp", "tmp"])
         m = rng.choice("PCRL")
@@ -356,7 +362,7 @@ def add_noise(rng: random.Random, n: int, edges, amount: int = 4):
         else:
             if a == b or (a, b) in final or not is_acyclic(n, cur + [(a, b)]):
                 continue
-            out.append([k, "tmp", a, b, m])
+            out.append([k, "tmp", a, b, m, rng.choice(["item", "delall"]), rng.choice(["warm", "cold"])])
     out.sort(key=lambda st: st[0])
     return out
 
